@@ -459,11 +459,18 @@ def replay_bignum_arms(viol):
             if b == 0:
                 continue
             want = math.gcd(a, b) if k == "gcd" else f(a, b)
-            # operands are built at run time so that small values travel in bignum cells too
-            goal = ("A is %d + 2^80 - 2^80, B is %d + 2^80 - 2^80, X is %s, write(X), nl" % (
-                a, b, ("gcd(A,B)" if k == "gcd" else "A %s B" % sym)))
-            cases.append((goal, str(want)))
-    return run_cases("", cases[:400], {"model": viol}, "C01", "bignum_arms", batch=True)
+            # operands are built at run time so that small values travel in bignum cells too; every
+            # representation pair of the arm table is exercised: (cell, cell), (fixnum, cell), (cell, fixnum)
+            expr = "gcd(A,B)" if k == "gcd" else "A %s B" % sym
+            fits = lambda v: -(2**55) <= v < 2**55
+            forms = [("A is %d + 2^80 - 2^80, B is %d + 2^80 - 2^80" % (a, b))]
+            if fits(a):
+                forms.append("A = %d, B is %d + 2^80 - 2^80" % (a, b))
+            if fits(b):
+                forms.append("A is %d + 2^80 - 2^80, B = %d" % (a, b))
+            for f_ in forms:
+                cases.append(("%s, X is %s, write(X), nl" % (f_, expr), str(want)))
+    return run_cases("", cases[:1200], {"model": viol}, "C01", "bignum_arms", batch=True)
 
 
 IDX2_PROGRAM = """
